@@ -132,6 +132,13 @@ func TestVerifH3(t *testing.T) {
 			for _, mu := range h3Mutations(text, b36, rng, 20) {
 				h3Short(vt, s, mu, minted, "mutated")
 			}
+			// every length around the decoded size, with the largest and smallest digits (a text that decodes to more
+			// bytes than timestamp+MAC must be refused, not sliced)
+			for l := 0; l <= len(text)+12; l++ {
+				for _, ch := range []string{"Z", "0", "1", "z"} {
+					h3Short(vt, s, strings.Repeat(ch, l), minted, "junk")
+				}
+			}
 			// a future-dated nonce: one this very instance will mint two minutes from now
 			// every minute boundary +-1 s over the window and beyond
 			for m := 1; m <= 63; m++ {
